@@ -381,3 +381,73 @@ pub fn c14_peer_list_step_p2_l3() {
 pub fn c14_peer_list_step_p0_l1() {
     peer_list_step(0, 1)
 }
+
+// ===================================================================================================== C11/C12 (routing step)
+/// What a node does with a payload read from its interface once the table has answered (the `match self.table.lookup(dst)`
+/// of GenericCloud::handle_interface_data, extracted; lookup itself is decided on the real table under C11): a destination
+/// with a live decision is sent as DATA to exactly that peer and to nobody else; a decision pointing at a non-peer is
+/// repaired (its claims removed, the address re-dialled); with no decision, router mode (no broadcast flag) sends nothing
+/// and counts exactly the payload as dropped, switch/hub mode sends it once to all peers and counts nothing.
+fn routing_step(npeers: usize) {
+    let pa: [u8; 2] = kani::any();
+    let has_answer: bool = kani::any();
+    let ans: u8 = kani::any();
+    let broadcast: bool = kani::any();
+    let n: usize = kani::any();
+    let mut r = XRouter {
+        table: XLookup { answer: if has_answer { Some(xaddr(ans)) } else { None }, asked: 0, removed: smallvec::ivec::IVec::new() },
+        peers: crate::vstd::collections::HashMap::new(),
+        broadcast,
+        traffic: XTraffic { dropped_calls: 0, dropped_bytes: 0 },
+        sent: smallvec::ivec::IVec::new(),
+        broadcasts: smallvec::ivec::IVec::new(),
+        connects: smallvec::ivec::IVec::new(),
+    };
+    let mut j = 0;
+    while j < npeers {
+        r.peers.insert(xaddr(pa[j]), XPeerId { node_id: xid(j as u8) });
+        j += 1;
+    }
+    let mut is_peer = false;
+    let mut j = 0;
+    while j < npeers {
+        is_peer |= pa[j] == ans;
+        j += 1;
+    }
+    let dst = crate::types::Address { data: kani::any(), len: 4 };
+    let mut data = XData { n };
+    let res = crate::vh_common::okf(r.route_slice(dst, &mut data));
+    assert!(res.is_some());
+    assert!(r.table.asked == 1);
+    if has_answer {
+        assert!(r.sent.len() == 1 && r.sent.as_slice()[0] == (xaddr(ans), MESSAGE_TYPE_DATA));
+        assert!(r.broadcasts.len() == 0 && r.traffic.dropped_calls == 0);
+        if is_peer {
+            assert!(r.table.removed.len() == 0 && r.connects.len() == 0);
+        } else {
+            // never keep selecting a non-peer as next hop: the stale claims go and the address is dialled again
+            assert!(r.table.removed.len() == 1 && r.table.removed.as_slice()[0] == xaddr(ans));
+            assert!(r.connects.len() == 1 && r.connects.as_slice()[0] == xaddr(ans));
+        }
+    } else {
+        assert!(r.sent.len() == 0 && r.table.removed.len() == 0 && r.connects.len() == 0);
+        if broadcast {
+            assert!(r.broadcasts.len() == 1 && r.broadcasts.as_slice()[0] == MESSAGE_TYPE_DATA && r.traffic.dropped_calls == 0);
+        } else {
+            assert!(r.broadcasts.len() == 0 && r.traffic.dropped_calls == 1 && r.traffic.dropped_bytes == n);
+        }
+    }
+    assert!(r.peers.len() <= npeers);
+    vcover!(has_answer && !is_peer, "decision_points_at_a_non_peer");
+    vcover!(!has_answer && !broadcast, "router_mode_drop");
+    std::mem::forget(r);
+    witness!();
+}
+#[cfg_attr(kani, kani::proof, kani::unwind(6))]
+pub fn c11_routing_step_p0() {
+    routing_step(0)
+}
+#[cfg_attr(kani, kani::proof, kani::unwind(6))]
+pub fn c11_routing_step_p2() {
+    routing_step(2)
+}
